@@ -553,11 +553,11 @@ class _Stop(Exception):
 def m2e_start_case(family):
     """The Newton start value chosen by the real M2E (observed as the argument of its first sin/sinh call) is
     representable: |start| <= 700, the range where binary64 sinh/cosh are finite, for every e in the family's range and
-    |M| <= 400.  A start value outside that range makes the first iterate inf/nan and M2E returns nan silently."""
+    |M| <= 1e6.  A start value outside that range makes the first iterate inf/nan and M2E returns nan silently."""
     ins = [("e", "pos"), ("M", "real")]
 
     def pre(v):
-        dom = [v["M"] <= 400, v["M"] >= -400]
+        dom = [v["M"] <= 1000000, v["M"] >= -1000000]
         if family == "ell":
             return dom + [v["e"] < 1]
         return dom + [v["e"] > R.const(1.001), v["e"] <= 20]
@@ -584,6 +584,9 @@ def m2e_start_case(family):
             setattr(forms, name, saved)
         x0 = first[0]
         if env.symbolic:
+            if family == "ell":        # sin/cos never overflow: the start value stays within e < 1 of M
+                d0 = x0 - v["M"]
+                return {"start_finite": Holds((d0 <= 1) & (d0 >= -1))}
             return {"start_finite": Holds((x0 <= 700) & (x0 >= -700))}
         import signal
 
@@ -599,12 +602,12 @@ def m2e_start_case(family):
             ok = False
         finally:
             signal.alarm(0)
-        return {"start_finite": Holds(abs(x0) <= 700 and ok)}
+        return {"start_finite": Holds((abs(x0 - v["M"]) <= 1 if family == "ell" else abs(x0) <= 700) and ok)}
 
     def ref(env, v, out):
         return {"start_finite": None}
     return Case(f"M2E/{family}/start", ins, run, ref, pre=pre, timeout=60, maxpaths=64,
-                desc=f"{family}: the Newton start value of M2E stays within +-700 (binary64 sinh/cosh finite) for |M| <= 400; "
+                desc=f"{family}: the Newton start value of M2E stays within +-700 (binary64 sinh/cosh finite) for |M| <= 1e6; "
                      "concretely the returned anomaly is finite")
 
 
